@@ -884,7 +884,8 @@ pub fn gen_conv(g: &mut G<'_>, o: &ConvOpts) -> Conversation {
     let n = g.usize_in(1, o.max_cmds.max(1));
     let mut cmds: Vec<Cmd> = Vec::new();
     let mut actions: Vec<Action> = Vec::new();
-    let mut live: Vec<u32> = Vec::new();
+    // live statements: (id, declared parameter count, which parameters have long data pending)
+    let mut live: Vec<(u32, usize, Vec<bool>)> = Vec::new();
     let mut next_id = 1u32;
     for _ in 0..n {
         match g.weighted(&[8, 6, 3, 2, 2, 2, 2, 1, 1, 1]) {
@@ -897,17 +898,25 @@ pub fn gen_conv(g: &mut G<'_>, o: &ConvOpts) -> Conversation {
                 if live.is_empty() || g.chance(1, 4) {
                     let id = if g.chance(1, 6) { *g.pick(&[0u32, u32::MAX, 0x0100_0000]) } else { next_id };
                     next_id += 1;
+                    // mostly no parameters (an empty parameter block); sometimes two, so that long
+                    // data has a parameter to address
+                    let np = if g.chance(1, 3) { 2 } else { 0 };
                     cmds.push(Cmd::Prepare { text: Blob::Lit(gen_query_text(g).into_bytes()) });
-                    actions.push(Action::Prepare(gen_prepare(g, id, 0)));
-                    if !live.contains(&id) {
-                        live.push(id);
-                    }
+                    actions.push(Action::Prepare(gen_prepare(g, id, np)));
+                    live.retain(|(x, _, _)| *x != id);
+                    live.push((id, np, vec![false; np]));
                     if o.sentinels {
                         cmds.push(Cmd::Ping);
                     }
                 }
-                let id = *g.pick(&live);
-                cmds.push(Cmd::Execute { id, params: vec![], send_types: false, flags: 0, iterations: 1 });
+                let k = g.below(live.len() as u64) as usize;
+                let (id, np, pending) = live[k].clone();
+                // streamed parameters are omitted inline (as clients do), the others are sent as LONG
+                let params: Vec<Param> = (0..np)
+                    .map(|i| if pending[i] { Param { coltype: T_BLOB, unsigned: false, value: PVal::LongData } } else { Param { coltype: T_LONG, unsigned: false, value: PVal::Int(g.below(1000)) } })
+                    .collect();
+                live[k].2 = vec![false; np];
+                cmds.push(Cmd::Execute { id, params, send_types: np > 0, flags: 0, iterations: 1 });
                 actions.push(Action::Result(gen_program(g, true, o.max_rows)));
             }
             2 => {
@@ -941,15 +950,19 @@ pub fn gen_conv(g: &mut G<'_>, o: &ConvOpts) -> Conversation {
                 // close: a live statement or an unknown id
                 if !live.is_empty() && g.coin() {
                     let i = g.below(live.len() as u64) as usize;
-                    let id = live.remove(i);
+                    let (id, _, _) = live.remove(i);
                     cmds.push(Cmd::Close { id });
                 } else {
                     cmds.push(Cmd::Close { id: 900_000 + g.below(10) as u32 });
                 }
             }
             _ => {
-                if let Some(&id) = live.first() {
-                    cmds.push(Cmd::LongData { id, param: g.below(3) as u16, data: Blob::Lit(gen_bytes(g, false)) });
+                // long data for a parameter the statement has (an index beyond the declared
+                // parameters addresses nothing: what a server does with it is left open)
+                if let Some(st) = live.iter_mut().find(|(_, np, _)| *np > 0) {
+                    let p = g.below(st.1 as u64) as usize;
+                    st.2[p] = true;
+                    cmds.push(Cmd::LongData { id: st.0, param: p as u16, data: Blob::Lit(gen_bytes(g, false)) });
                 } else {
                     cmds.push(Cmd::Ping);
                 }
